@@ -823,6 +823,7 @@ package commitlog
 //@   ensures result == (x < y ? x : y)
 // (the caller, readMessage, ignores the byte count: a read that returns no error must have filled the buffer)
 //@ ghost var listRead []*segment
+//@ ghost var listFresh bool
 //@ func (*committedReader).readLoop serves C03, C01, C10
 //@   returns (n, err)
 //@   ensures [a-read-fills-the-buffer-or-fails] err == nil ==> n == len(p)
@@ -838,6 +839,13 @@ package commitlog
 //@   loop 1 invariant segments == ghost.listRead
 //@   call findSegmentByBaseOffset requires [the-next-segment-is-looked-up-in-the-list-read-last] arg0 == ghost.listRead
 //@   call getHWPos requires [the-watermark-is-looked-up-in-the-list-read-last] arg0 == ghost.listRead
+// (and that list is read AGAIN after every wait: while the reader was parked the log may have rolled, and the watermark
+//  it woke up for may lie in a segment the list read before the wait does not have - "every subscriber positioned at or
+//  before it eventually receives it")
+//@   ghost at entry: ghost.listFresh := true
+//@   ghost after call waitForHW: ghost.listFresh := false
+//@   ghost after call Segments: ghost.listFresh := true
+//@   call getHWPos requires [C03:the-segment-list-is-read-again-after-a-wait] ghost.listFresh
 //@   call (*segment).ReadAt requires [from-reader-position] arg0 == r.seg && arg2 == r.pos
 //@   call (*segment).ReadAt requires [not-beyond-hw-position] r.seg == r.hwSeg ==> r.pos + len(arg1) <= r.hwPos
 //@   call getHWPos requires [limit-at-current-hw] arg1 == r.hw
